@@ -186,6 +186,16 @@ TEXTS = {
     "es1": (["el ", ("d", 2), " de enero de 2015 y hace ", ("n", 2), " semanas"], ["es"]),
     "zh1": (["2015年", ("m", 2), "月", ("d", 2), "日"], ["zh"]),
     "yue1": (["上個月 ", ("d", 2)], ["yue"]),
+    # language-specific preprocessing of the text (Russian "с <number>"): hits must still be substrings of the text given
+    "ru2": (["Встреча ", ("d", 2), " января с ", ("H", 2), ":00 до 12:00"], ["ru"]),
+    "ru3": (["Работаем с ", ("d", 2), " января по 15 января ", ("Y", 4)], ["ru"]),
+    # runs of separators with spaces inside, next to words of languages whose sentences are not cut at '.' or that have no
+    # word spacing: nothing there is a date
+    "th_sep": (["ประชุม . . ครับ ", ("n", 2)], ["th"]),
+    "hi_sep": (["मीटिंग . . है ", ("n", 2)], ["hi"]),
+    "ja_sep": (["会議 - - です ", ("n", 2)], ["ja"]),
+    "zh_sep": (["会议 - - 结束 ", ("n", 2)], ["zh"]),
+    "bn_sep": (["সভা . . : ", ("n", 2)], ["bn"]),
 }
 
 
@@ -193,7 +203,7 @@ def h_pipeline(name, detect, with_base, add_lang=False, only=None):
     parts, langs = TEXTS[name]
     if only:
         # quick tier: one symbolic field, the others at representative concrete values
-        rep = {"d": "12", "m": "03", "H": "10", "n": "15"}
+        rep = {"d": "12", "m": "03", "H": "10", "n": "15", "Y": "2015"}
         parts = [p if isinstance(p, str) or p[0] == only else rep[p[0]] for p in parts]
 
     def fn():
@@ -489,7 +499,7 @@ def native_check(spec):
     # pipeline
     parts, langs = TEXTS[a["name"]]
     if a.get("only"):
-        rep = {"d": "12", "m": "03", "H": "10", "n": "15"}
+        rep = {"d": "12", "m": "03", "H": "10", "n": "15", "Y": "2015"}
         parts = [p if isinstance(p, str) or p[0] == a["only"] else rep[p[0]] for p in parts]
     text = render(parts, w)
     st = {}
